@@ -43,9 +43,9 @@ theorem rankAll_perm (ls : LeafScore) (q : Query) (idx : Index) : (rankAll ls q 
 /-! ### from the pointwise refinement to lists -/
 
 theorem compile_ids (ls : LeafScore) (so : ShapeOracle) (s : Segment) (hso : ValidOracle so)
-    (hleaf : PosLeaf ls s) (hne : NoEmptyTerm s) (q : Query) (hq : PosQ q) (ctx : Ctx) :
+    (hleaf : PosLeaf ls s) (q : Query) (hq : PosQ q) (ctx : Ctx) :
     (compile ls so s ctx q).map (·.id) = s.live.filter (fun i => sat q (s.doc i)) := by
-  have h := compile_agree ls so s hso hleaf hne q ctx hq
+  have h := compile_agree ls so s hso hleaf q ctx hq
   rw [← segHits_ids ls q s]
   apply ids_eq_of_isSome h.1 (segHits_sorted ls q s)
   intro i
@@ -53,17 +53,17 @@ theorem compile_ids (ls : LeafScore) (so : ShapeOracle) (s : Segment) (hso : Val
   exact (h.2 i).1
 
 theorem compile_eq_segHits (ls : LeafScore) (so : ShapeOracle) (s : Segment) (hso : ValidOracle so)
-    (hleaf : PosLeaf ls s) (hne : NoEmptyTerm s) (q : Query) (hq : PosQ q) (ctx : Ctx)
+    (hleaf : PosLeaf ls s) (q : Query) (hq : PosQ q) (ctx : Ctx)
     (hsc : ctx.scored = true) :
     compile ls so s ctx q = segHits ls q s := by
-  have h := compile_agree ls so s hso hleaf hne q ctx hq
+  have h := compile_agree ls so s hso hleaf q ctx hq
   apply sorted_ext h.1 (segHits_sorted ls q s)
   intro i
   rw [lookup_segHits]
   exact (h.2 i).2 hsc
 
 /-- hypotheses of the theorems for every segment of an index -/
-def IndexOK (ls : LeafScore) (idx : Index) : Prop := ∀ s ∈ idx, PosLeaf ls s ∧ NoEmptyTerm s
+def IndexOK (ls : LeafScore) (idx : Index) : Prop := ∀ s ∈ idx, PosLeaf ls s
 
 theorem runFrom_ids (ls ls' : LeafScore) (so : ShapeOracle) (hso : ValidOracle so) (q : Query) (hq : PosQ q)
     (ctx : Ctx) : ∀ (idx : Index) (off : Nat), IndexOK ls idx →
@@ -72,7 +72,7 @@ theorem runFrom_ids (ls ls' : LeafScore) (so : ShapeOracle) (hso : ValidOracle s
   | s :: rest, off, hok => by
     have hs := hok s List.mem_cons_self
     simp only [runFrom, hitsFrom, List.map_append, shift_ids]
-    rw [compile_ids ls so s hso hs.1 hs.2 q hq ctx, segHits_ids,
+    rw [compile_ids ls so s hso hs q hq ctx, segHits_ids,
       runFrom_ids ls ls' so hso q hq ctx rest (off + s.size) (fun x hx => hok x (List.mem_cons_of_mem _ hx))]
 
 theorem runFrom_eq (ls : LeafScore) (so : ShapeOracle) (hso : ValidOracle so) (q : Query) (hq : PosQ q)
@@ -82,7 +82,7 @@ theorem runFrom_eq (ls : LeafScore) (so : ShapeOracle) (hso : ValidOracle so) (q
   | s :: rest, off, hok => by
     have hs := hok s List.mem_cons_self
     simp only [runFrom, hitsFrom]
-    rw [compile_eq_segHits ls so s hso hs.1 hs.2 q hq ctx hsc,
+    rw [compile_eq_segHits ls so s hso hs q hq ctx hsc,
       runFrom_eq ls so hso q hq ctx hsc rest (off + s.size) (fun x hx => hok x (List.mem_cons_of_mem _ hx))]
 
 end WM.Compile
